@@ -405,11 +405,14 @@ type model struct {
 	root  string
 	vfs   map[string]*File
 	known map[string]int // names in w/ seen by a scan: 1 = as a symbolic link only, 2 = as a regular file
+	// addresses the wallet itself has listed in an earlier GetAccounts answer of this run: it
+	// then holds a file for them (how the listener-discovered files enter the availability clause)
+	observed map[string]bool
 	v3mem map[string][]byte
 }
 
 func newModel(c *Case, root string) *model {
-	m := &model{cfg: c.Cfg, keys: c.Keys, root: root, vfs: map[string]*File{}, known: map[string]int{}, v3mem: map[string][]byte{}}
+	m := &model{cfg: c.Cfg, keys: c.Keys, root: root, vfs: map[string]*File{}, known: map[string]int{}, observed: map[string]bool{}, v3mem: map[string][]byte{}}
 	for _, k := range c.Keys {
 		m.addrs = append(m.addrs, addrOfKey(k))
 	}
@@ -741,10 +744,13 @@ func (m *model) expect(addr string) expectation {
 		if r.key >= 0 && r.usable && m.addrs[r.key] != addr && (m.known[e.name] > 0 || m.cfg.Listener) {
 			ex.wrongKey = true
 		}
-		if e.v == vYes && e.regular && m.known[e.name] == 2 {
+		if e.v == vYes && e.regular && (m.known[e.name] == 2 || m.observed[addr]) {
 			anchor = true
 			if good {
 				ex.src = r.src
+				if m.known[e.name] != 2 {
+					ex.src += " [file noticed by the listener]"
+				}
 			}
 		}
 	}
@@ -1013,6 +1019,7 @@ func judgeWallet(c Case) (vs []evid.Violation) {
 				for _, g := range got {
 					if g != nil {
 						have[hex.EncodeToString(g[:])] = true
+						m.observed[hex.EncodeToString(g[:])] = true
 					}
 				}
 				missing := false
@@ -1144,6 +1151,7 @@ func checkAccounts(ctx context.Context, w fswallet.Wallet, m *model, i int) (vs 
 			continue
 		}
 		a := hex.EncodeToString(g[:])
+		m.observed[a] = true
 		if seen[a] {
 			vs = append(vs, evid.V("exactness", "action %d: 0x%s is listed twice", i, a))
 		}
